@@ -171,8 +171,32 @@ class Exec:
         env = dict(env)
         for i, a in enumerate(args): env['%d:_%d' % (fid, i + 1)] = a
         self.inlined.add(fn.path)
+        pref = '%d:' % fid
+        def rebase(v, depth=0):
+            # a reference handed back through one of the callee's own cells (e.g. `&(*_1).field` where _1 holds a reference) is re-rooted at
+            # the object it finally points into: the callee's cells disappear with its frame
+            if isinstance(v, Ref):
+                if v.local.startswith(pref):
+                    try:
+                        cl, cp = self.norm(env_now[0], v.local, v.path + ('$',))
+                        if not cl.startswith(pref): return Ref(cl, cp[:-1])
+                        # the reference points into a value the callee owns (an argument passed by value through a transparent pointer):
+                        # keep that value alive in a cell of its own
+                        keep.setdefault(cl, '$kept%d_%s' % (fid, cl.split(':', 1)[1]))
+                        return Ref(keep[cl], cp[:-1])
+                    except Exception: pass
+                return v
+            if depth > 3: return v
+            if isinstance(v, Enum) and v.fields: return Enum(v.tag, [rebase(x, depth + 1) for x in v.fields], v.ty)
+            if isinstance(v, tuple): return tuple(rebase(x, depth + 1) for x in v)
+            if isinstance(v, list): return [rebase(x, depth + 1) for x in v]
+            return v
+        env_now = [None]; keep = {}
         def done(ret, env2, pc2):
-            e = {kk: vv for kk, vv in env2.items() if not kk.startswith('%d:' % fid)}
+            env_now[0] = env2; keep.clear()
+            ret = rebase(ret)
+            e = {kk: vv for kk, vv in env2.items() if not kk.startswith(pref)}
+            for cl, name in keep.items(): e[name] = env2[cl]
             k(ret, e, pc2)
         if ctx is None: ctx = getattr(self, 'cur_ctx', '')
         self.step(fn, fid, 'bb0', env, pc, {}, done, ctx + '>' + fn.name)
